@@ -2,6 +2,7 @@
 //! C32 desc, C30 csm, C29 map32, C31 sft
 pub mod csm;
 pub mod desc;
+pub mod dpr;
 pub mod map32;
 pub mod resolve;
 
@@ -28,7 +29,20 @@ pub fn layout32() -> VMLayout {
     }
 }
 
-/// `cfg` lines of this package. `cfg layout 32|64` must be the first thing that touches the VM
+/// The compressed-pointer style layout installed by `cfg layout compressed` (the constants of mmtk-core's
+/// own `mock_test_vm_layout_compressed_pointer`: 35-bit address space, heap 0x4000_0000..4 GB, non-contiguous
+/// spaces => VM map = `Map32`, SFT map = `SFTSparseChunkMap`).
+pub fn layout_compressed() -> VMLayout {
+    VMLayout {
+        log_address_space: 35,
+        heap_start: addr(0x4000_0000),
+        heap_end: addr(4usize << 30),
+        log_space_extent: 31,
+        force_use_contiguous_spaces: false,
+    }
+}
+
+/// `cfg` lines of this package. `cfg layout 32|64|compressed` must be the first thing that touches the VM
 /// layout in this process: the layout is process-global and (in debug builds) may only be set before
 /// its first use. Repeating the same line is a no-op; asking for a different layout is a mismatch.
 pub fn cfg(tokens: &[&str]) -> bool {
@@ -42,6 +56,9 @@ pub fn cfg(tokens: &[&str]) -> bool {
                 "32" => {
                     mmtk::MMTKBuilder::new_no_env_vars().set_vm_layout(layout32());
                 }
+                "compressed" => {
+                    mmtk::MMTKBuilder::new_no_env_vars().set_vm_layout(layout_compressed());
+                }
                 "64" => {}
                 _ => return false,
             }
@@ -50,6 +67,7 @@ pub fn cfg(tokens: &[&str]) -> bool {
             let l = mmtk::util::heap::vm_layout::vm_layout();
             match *which {
                 "32" => !l.force_use_contiguous_spaces && l.heap_end == addr(0xd000_0000),
+                "compressed" => !l.force_use_contiguous_spaces && l.heap_start == addr(0x4000_0000) && l.heap_end == addr(4usize << 30),
                 _ => l.force_use_contiguous_spaces && l.heap_end == addr(0x2200_0000_0000) && l.log_space_extent == 41,
             }
         }
@@ -63,6 +81,7 @@ pub fn dispatch(tokens: &[&str]) -> Option<String> {
         "desc" => desc::run(args),
         "csm" => csm::run(args),
         "map32" => map32::run(args),
+        "dpr" => dpr::run(args),
         "resolve" => resolve::run(args),
         _ => return None,
     })
